@@ -86,6 +86,7 @@ type linkResult struct {
 	Align    [][]string  `json:"align,omitempty"`
 	More     []linkResult `json:"more,omitempty"` // further links of the same case
 	Draws    []int64      `json:"draws,omitempty"` // mirrored PRNG values after the reseed
+	StartDraws []float64  `json:"start_draws,omitempty"` // the first Float32 values of the source seeded at case start
 	Leak     string       `json:"leak,omitempty"` // synctest's deadlock report: goroutines still blocked at the end
 }
 
@@ -322,6 +323,10 @@ func runLinkCase(t *testing.T, c *linkCase) linkResult {
 	results[0].Tx = counterValue(server.Metrics.ProxyMetrics.SentBytesTotal, labels)
 	results[0].Ops = opRes
 	results[0].Draws = mirrored
+	sm := rand.New(rand.NewSource(c.Seed + 1))
+	for j := 0; j < 8; j++ {
+		results[0].StartDraws = append(results[0].StartDraws, float64(sm.Float32()))
+	}
 	if nl > 1 {
 		results[0].More = results[1:]
 	}
